@@ -14,6 +14,7 @@ import time
 import traceback
 from concurrent.futures import ThreadPoolExecutor
 import threading
+import uuid
 
 HERE = os.path.dirname(os.path.abspath(__file__))
 sys.path.insert(0, HERE)
@@ -121,7 +122,7 @@ def lab_leg(instance, depth, nshards, inst, seed, sim=None, overrides=None, env_
             for k, v in (overrides or {}).items():
                 argv.append(f"override={k}:{v}")
             e = dict(env_extra or {})
-            e["VERIF_TAG"] = f"_{tag}_{os.getpid()}"
+            e["VERIF_TAG"] = f"_{tag}_{os.getpid()}_{uuid.uuid4().hex[:6]}"
             cmds.append((argv, e, out))
         t0 = time.time()
         shards = run_workers(cmds)
@@ -142,7 +143,7 @@ def recipe_leg(instance, maxcalls, nshards, inst, seed, sim=None, env_extra=None
             if sim:
                 argv.append(f"simulate={sim[0]},{sim[1]},{sim[2] + i}")
             e = dict(env_extra or {})
-            e["VERIF_TAG"] = f"_{tag}_{os.getpid()}"
+            e["VERIF_TAG"] = f"_{tag}_{os.getpid()}_{uuid.uuid4().hex[:6]}"
             cmds.append((argv, e, out))
         t0 = time.time()
         shards = run_workers(cmds)
@@ -155,9 +156,9 @@ def trace_leg(tag=""):
 
     def go():
         os.makedirs(os.path.join(BUILD, "run"), exist_ok=True)
-        out = os.path.join(BUILD, "run", f"trace_{tag}_{os.getpid()}.json")
+        out = os.path.join(BUILD, "run", f"trace_{tag}_{os.getpid()}_{uuid.uuid4().hex[:6]}.json")
         t0 = time.time()
-        shards = run_workers([([PY, os.path.join(HERE, "trace_worker.py"), out], {"VERIF_TAG": f"_{tag}_{os.getpid()}"}, out)])
+        shards = run_workers([([PY, os.path.join(HERE, "trace_worker.py"), out], {"VERIF_TAG": f"_{tag}_{os.getpid()}_{uuid.uuid4().hex[:6]}"}, out)])
         return dict(params=params, shards=shards, wall=time.time() - t0)
     return cached(tree_hash() + json.dumps(params, sort_keys=True), go)
 
@@ -167,9 +168,9 @@ def units_leg(inst, seed, env_extra=None, tag=""):
 
     def go():
         os.makedirs(os.path.join(BUILD, "run"), exist_ok=True)
-        out = os.path.join(BUILD, "run", f"units_{inst[0]}_{seed}_{tag}_{os.getpid()}.json")
+        out = os.path.join(BUILD, "run", f"units_{inst[0]}_{seed}_{tag}_{os.getpid()}_{uuid.uuid4().hex[:6]}.json")
         e = dict(env_extra or {})
-        e["VERIF_TAG"] = f"_{tag}_{os.getpid()}"
+        e["VERIF_TAG"] = f"_{tag}_{os.getpid()}_{uuid.uuid4().hex[:6]}"
         t0 = time.time()
         shards = run_workers([([PY, os.path.join(HERE, "units_worker.py"), inst[0], inst[1], str(seed), out], e, out)])
         return dict(params=params, shards=shards, wall=time.time() - t0)
@@ -187,7 +188,7 @@ def slicer_leg(shapes, tag=""):
             for k in range(nparts):
                 out = os.path.join(BUILD, "run", f"slicer_{nr}_{nc}_{labels}_{k}_{nparts}_{tag}_{os.getpid()}.json")
                 cmds.append(([PY, os.path.join(HERE, "slicer_worker.py"), str(nr), str(nc), labels, str(k), str(nparts), out],
-                             {"VERIF_TAG": f"_{tag}_{os.getpid()}"}, out))
+                             {"VERIF_TAG": f"_{tag}_{os.getpid()}_{uuid.uuid4().hex[:6]}"}, out))
         t0 = time.time()
         shards = run_workers(cmds)
         return dict(params=params, shards=shards, wall=time.time() - t0)
